@@ -543,7 +543,10 @@ func calculateObjectClassAndIsStatic(targetT base.T) (string, bool) {
 
 	switch len(beforeCode) {
 	case 0:
-		isStaticTarget = unicode.IsUpper(rune(target[0]))
+		// a target that prints as nothing (an empty string literal, a bare keyword) is no class
+		if len(target) > 0 {
+			isStaticTarget = unicode.IsUpper(rune(target[0]))
+		}
 	default:
 		isStaticTarget = unicode.IsUpper(rune(beforeCode[0]))
 	}
